@@ -230,3 +230,38 @@ func roundTripBinary(t *testing.T, api *serix.API, in any) {
 		t.Fatalf("round trip: %+v != %+v", in, out.Interface())
 	}
 }
+
+type regOmitType struct {
+	Type uint8 `serix:",omitempty"`
+	V    uint8 `serix:""`
+}
+
+type regNote struct {
+	N uint8 `serix:""`
+}
+
+type RegInlNote struct {
+	Note *regNote `serix:",optional"`
+}
+
+type regParentNote struct {
+	Note       *regNote `serix:",optional"`
+	RegInlNote `serix:",inlined"`
+}
+
+// The duplicate-key check only saw keys that were actually written: with the colliding member left out (omitempty zero
+// value, nil optional) the document was written and decoded to ANOTHER value (found by an independent auditor, sixth
+// round). Key collisions are decided per type now.
+func TestRegressionJSONKeyUsedTwiceWithOmittedMember(t *testing.T) {
+	api := serix.NewAPI()
+	if err := api.RegisterTypeSettings(regOmitType{}, serix.TypeSettings{}.WithObjectType(uint8(5))); err != nil {
+		t.Fatal(err)
+	}
+	for _, v := range []any{&regOmitType{Type: 0, V: 1}, &regOmitType{Type: 3, V: 1},
+		&regParentNote{RegInlNote: RegInlNote{Note: &regNote{N: 3}}}, &regParentNote{Note: &regNote{N: 2}}} {
+		if _, problem := jsonRoundTripOrRefusal(t, api, v); problem != "" {
+			t.Fatalf("%+v: %s", v, problem)
+		}
+		roundTripBinary(t, api, v)
+	}
+}
